@@ -324,7 +324,7 @@ fn new(grm: &YaccGrammar, sg: &StateGraph) -> (r: Result<Tables, StateTableError
         &&& t.actions@.len() == sg.nstates() * grm.ntok() && cells_wf(grm, t.actions@) // OBL: C16.cells_hold_indices_of_this_grammar
         &&& sa_ok(t.actions@, t.state_actions@) // OBL: C16.actions_listed_iff_not_error
         &&& t.state_shifts@.len() == sg.nstates() * grm.ntok() && forall|s: int| 0 <= s < sg.nstates() ==> #[trigger] row_shifts_ok(t.actions@, t.state_shifts@, s * grm.ntok(), grm.ntok() as int) // OBL: C16.shifts_listed_iff_action_is_shift
-        &&& t.core_reduces@.len() == sg.nstates() * grm.nprods() && forall|s: int| 0 <= s < sg.nstates() ==> #[trigger] row_core_ok(grm, t.actions@, t.core_reduces@, s * grm.ntok(), grm.ntok() as int, s * grm.nprods(), grm.nprods() as int) // OBL: C16.core_reduces_one_per_rule_and_length
+        &&& t.core_reduces@.len() == sg.nstates() * grm.nprods() && forall|s: int| 0 <= s < sg.nstates() ==> #[trigger] row_core_ok(grm, t.actions@, t.core_reduces@, s * grm.ntok(), grm.ntok() as int, s * grm.nprods(), grm.nprods() as int) // OBL: C16.core_reduces_one_per_rule_and_length C15.core_reduces_one_per_pair_for_every_hash_order
         &&& t.reduce_states@.len() == sg.nstates() && forall|s: int| 0 <= s < sg.nstates() ==> (#[trigger] t.reduce_states@[s]) == row_reduce_only(grm, t.actions@, s * grm.ntok(), grm.ntok() as int) // OBL: C16.reduce_only_iff_single_rule_and_length
     }),
 {
@@ -491,8 +491,8 @@ fn new(grm: &YaccGrammar, sg: &StateGraph) -> (r: Result<Tables, StateTableError
                     lo == si_ * nt, 0 <= lo, lo + nt <= ns * nt, clo == si_ * np, 0 <= clo, clo + np <= ns * np,
                     entries_ok(es_@, nt_depth@), nt_depth@.len() <= nt, nd_ok(grm, A, nt_depth@, lo, lo + nt),
                     forall|j: int| 0 <= j < ns * np && !(clo <= j < clo + np) ==> #[trigger] core_reduces@[j] == core0[j],
-                    core_from_entries(core_reduces@, es_@, clo, np, vi_ as int), // OBL: C16.core_reduces_one_per_rule_and_length.bits_are_the_entries
-                    distinct_reduces == vi_, // OBL: C16.reduce_only_iff_single_rule_and_length.counter_is_number_of_pairs
+                    core_from_entries(core_reduces@, es_@, clo, np, vi_ as int), // OBL: C16.core_reduces_one_per_rule_and_length.bits_are_the_entries C15.core_reduces_set_for_every_entry_in_any_order
+                    distinct_reduces == vi_, // OBL: C16.reduce_only_iff_single_rule_and_length.counter_is_number_of_pairs C15.reduce_counter_independent_of_hash_order
             {
                 //@probe
                 let pidx = es_[vi_].1;
